@@ -130,3 +130,17 @@ Example nv_unsubscribe_during_delivery :
   [ECall 0 3 (1%Z, 1); ERet 0 3 (1%Z, 1); ECall 1 0 (1%Z, 1); ERet 1 0 (1%Z, 1);
    ECall 0 3 (2%Z, 1); ERet 0 3 (2%Z, 1)].
 Proof. vm_compute. reflexivity. Qed.
+
+(* the same identity broadcast several times - inside a delay block, in a nested block, before an exception -
+   is delivered every time, at its own position (two listeners receive class 3 here) *)
+Example same_identity_several_times :
+  map snd (top 0 (logof (run 80 w0 s0
+     (TScript [Broadcast 1 3; Delay [Broadcast 1 3; Broadcast 2 3; Broadcast 1 3; Delay [Broadcast 1 3]; Raise]])))) =
+  [(1%Z, 3); (1%Z, 3);
+   (1%Z, 3); (1%Z, 3); (2%Z, 3); (2%Z, 3); (1%Z, 3); (1%Z, 3); (1%Z, 3); (1%Z, 3)].
+Proof. vm_compute. reflexivity. Qed.
+
+Example nv_same_message_twice :
+  ignored s0 (1%Z, 3) = false /\
+  exists st s' lg, run 80 w0 s0 (TAct (Delay [Broadcast 1 3; Broadcast 1 3])) = Some (st, s', lg) /\ length (top 0 lg) = 4.
+Proof. split; [vm_compute; reflexivity|]. eexists _, _, _. split; [vm_compute; reflexivity|reflexivity]. Qed.
